@@ -1,17 +1,28 @@
-(* C14: model of Symmetries / TransformMove + Move on the images vs the implementation. *)
+(* C14: model of Symmetries (under the position's OWN configuration, SymmetryCfg.v) / TransformMove + Move and GameOver on the
+   images vs the implementation.
+   input: <enc p> ; <move> ; <Config().Pieces> <Config().Capstones>
+   per image: <sym index>:<abs image>:<tie-break flag of the image>:<WinDetails of the image>:<transformed move>:<result>,
+   result = OK <abs> <WinDetails of the successor> | ERR | PANIC *)
 open Common
-let res_str = function Move.Ok q -> "OK " ^ enc_abs q | Move.Err -> "ERR" | Move.Panic -> "PANIC"
+let col = function GameOver.GWhite -> "W" | GameOver.GBlack -> "B" | GameOver.GNone -> "N"
+let over_str (q : Move.position) : string =
+  match GameOver.win_details q with
+  | Some d -> Printf.sprintf "%d%s%s/%s" (if d.GameOver.wd_over then 1 else 0) (col d.GameOver.wd_winner)
+                (string_of_n d.GameOver.wd_wflats) (string_of_n d.GameOver.wd_bflats)
+  | None -> "MODEL-OUT-OF-FUEL"
+let res_str = function Move.Ok q -> "OK " ^ enc_abs q ^ " " ^ over_str q | Move.Err -> "ERR" | Move.Panic -> "PANIC"
 let run (_args : string list) =
   run_cases (fun fs ->
     match S.split_on_char ';' (L.hd fs) with
-    | [ps; ms] ->
+    | [ps; ms; cs] ->
       let p = parse_pos ps and m = parse_move ms in
-      let imgs = Inst.sym_symmetries p in
+      let (stones, caps) = (match words cs with [a; b] -> (n_of_string a, n_of_string b) | _ -> failwith "c14 config") in
+      let imgs = SymmetryCfgInst.symc_symmetries stones caps p in
       let parts = L.map (fun (q, idx) ->
         let i = int_of_nat idx in
         let (tm, res) = (match Inst.sym_transform p.Move.size idx m with
           | Move.Ok rm -> (enc_move rm, res_str (Inst.mv_fixed q rm))
           | _ -> ("PANIC", "-")) in
-        Printf.sprintf "%d:%s:%s:%s" i (enc_abs q) tm res) imgs in
+        Printf.sprintf "%d:%s:%d:%s:%s:%s" i (enc_abs q) (if q.Move.black_wins_ties then 1 else 0) (over_str q) tm res) imgs in
       (S.concat " # " parts ^ " @ " ^ res_str (Inst.mv_fixed p m), None, None)
     | _ -> failwith "c14 input")
